@@ -97,6 +97,36 @@ func Cone(p V3, h, r0, r1, rd float64) (float64, bool) {
 	return ConvexPolySigned(V2{math.Hypot(p[0], p[1]), p[2]}, vs) - rd, true
 }
 
+// PolySigned is the signed distance to a simple polygon: minimum distance to its edges, negative
+// when the even-odd crossing number of the ray towards +x is odd (half-open rule on y). ok=false
+// when p is level with a vertex within tol (the float crossing test is then not trustworthy;
+// exact treatment of those points is the subject of C04's oracle).
+func PolySigned(p V2, vs []V2, tol float64) (float64, bool) {
+	d := math.Inf(1)
+	inside := false
+	n := len(vs)
+	for i := 0; i < n; i++ {
+		a, b := vs[i], vs[(i+1)%n]
+		if math.Abs(a[1]-p[1]) <= tol {
+			return 0, false
+		}
+		d = math.Min(d, SegDist(p, a, b))
+		if (a[1] > p[1]) != (b[1] > p[1]) {
+			x := a[0] + (p[1]-a[1])/(b[1]-a[1])*(b[0]-a[0])
+			if math.Abs(x-p[0]) <= tol {
+				return 0, false
+			}
+			if x > p[0] {
+				inside = !inside
+			}
+		}
+	}
+	if inside {
+		return -d, true
+	}
+	return d, true
+}
+
 // Exact3 returns the closed-form distance function of a program over the
 // exact sub-grammar: leaves sphere/box3/cyl/capsule/cone under rigid xform3,
 // scale3, offset3 (outward) and revolve of an Exact2 profile. ok=false if the
@@ -162,6 +192,20 @@ func Exact2(n *shape.Node) (func(V2) float64, bool) {
 		return func(p V2) float64 { return RoundBoxN(p[:], []float64{P[0] / 2, P[1] / 2}, P[2]) }, true
 	case "line2":
 		return func(p V2) float64 { return SegDist(p, V2{-P[0] / 2, 0}, V2{P[0] / 2, 0}) - P[1] }, true
+	case "poly":
+		vs := make([]V2, len(n.V))
+		scale := 0.0
+		for i, v := range n.V {
+			vs[i] = V2{v[0], v[1]}
+			scale = math.Max(scale, math.Max(math.Abs(v[0]), math.Abs(v[1])))
+		}
+		return func(p V2) float64 {
+			d, ok := PolySigned(p, vs, 1e-9*(scale+math.Abs(p[0])+math.Abs(p[1])))
+			if !ok {
+				return math.NaN() // undecided by this oracle: the caller skips NaN
+			}
+			return d
+		}, true
 	case "xform2":
 		f, ok := Exact2(n.K[0])
 		if !ok {
